@@ -133,20 +133,20 @@ def run(repo: Repo, rep: Report, tier: str) -> None:
 
     # ---------------------------------------------------------------- R4.4 merge + de-dup
     po = repo.func("core.loader.operations.parser:parse_operations")
-    txt = full(po.node)
-    merged = "p.name == op_param.name and p.param_in == op_param.param_in" in txt or ("name" in txt and "param_in" in txt and "not (" in txt and "params = [p for p in params" in txt)
-    if merged:
+    from rules._params import override_merge_keys, reservation_rule
+
+    keys = override_merge_keys(po)
+    if keys == {"name", "param_in"}:
         rep.ok("R4.4", f"{po.module.relpath}:parse_operations parameter merge", "an operation-level parameter replaces the path-level one with the same (name, in)", po.loc())
-    else:
+    elif keys is None:
         rep.violation("R4.4", f"{po.module.relpath}:parse_operations parameter merge", f"{po.fq}|no-merge",
                       "path-level and operation-level parameters are concatenated without the (name, in) override: a parameter declared at both levels appears twice "
                       "(duplicate argument -> SyntaxError)", po.loc())
-    ptxt = full(pp.node)
-    if "path_param_names" in ptxt and "param.param_in != 'path'" in ptxt:
-        rep.ok("R4.4", f"{pp.module.relpath}:process_parameters path names reserved", "path parameters keep the plain sanitised name the URL template uses; colliding non-path parameters get the suffix", pp.loc())
     else:
-        rep.violation("R4.4", f"{pp.module.relpath}:process_parameters path names reserved", f"{pp.fq}|path-name-not-reserved",
-                      "argument-name collisions can rename a *path* parameter while the URL template still uses the plain name: another argument's value is put into the path", pp.loc())
+        rep.violation("R4.4", f"{po.module.relpath}:parse_operations parameter merge", f"{po.fq}|merge-keys|{sorted(keys)}",
+                      f"an operation-level parameter evicts earlier parameters that agree on {sorted(keys)} only (OpenAPI identifies a parameter by name *and* "
+                      "location): e.g. a path-level header `version` disappears when the operation declares a query `version`", po.loc())
+    reservation_rule(pp, rep, "R4.4")
 
     # ---------------------------------------------------------------- R4.6 one sanitizer
     sites = {
